@@ -997,7 +997,7 @@ func (fc *FnCtx) storedAsserts(x *ssa.Store, v Val) {
 	}
 	for i := range fc.con.Stored {
 		a := &fc.con.Stored[i]
-		if !fc.anchorMatches(a.Anchor, pos) {
+		if !fc.anchorMatches(a.Anchor, pos) && !(x.Pos().IsValid() && fc.anchorMatches(a.Anchor, x.Pos())) {
 			continue
 		}
 		if fc.anchorsDone == nil {
